@@ -51,12 +51,14 @@ func (check fieldConstraints) checkRange(v val.Value, t *meta.Type) error {
 	if len(t.Range()) == 0 {
 		return nil
 	}
+	// every range statement along the typedef chain restricts further (RFC7950 Sec
+	// 9.2.4), the alternatives of one statement are checked by Range.CheckValue
 	for _, r := range t.Range() {
-		if err := r.CheckValue(v); err == nil {
-			return nil
+		if err := r.CheckValue(v); err != nil {
+			return fmt.Errorf("'%s' is not in range %s", v, r)
 		}
 	}
-	return fmt.Errorf("'%s' did not match any of the required ranges", v)
+	return nil
 }
 
 func (fieldConstraints) patternCheck(s string, patterns []*meta.Pattern) error {
@@ -75,10 +77,11 @@ func (fieldConstraints) lenCheck(s string, lengths []*meta.Range) error {
 	if len(lengths) == 0 {
 		return nil
 	}
+	// every length statement along the typedef chain restricts further
 	for _, length := range lengths {
-		if err := length.CheckValue(val.Int32(len(s))); err == nil {
-			return nil
+		if err := length.CheckValue(val.Int32(len(s))); err != nil {
+			return fmt.Errorf("string length outside allowed ranges. %s", s)
 		}
 	}
-	return fmt.Errorf("string length outside allowed ranges. %s", s)
+	return nil
 }
